@@ -11,6 +11,7 @@ mod c04;
 mod c14;
 mod c10;
 mod c18;
+mod c12;
 
 fn main() {
     std::panic::set_hook(Box::new(|_| {}));
@@ -50,6 +51,8 @@ fn main() {
         "c10-record" => c10::record(rest),
         "c18-replay" => c18::replay(rest),
         "c18-record" => c18::record(rest),
+        "c12-replay" => c12::replay(rest),
+        "c12-record" => c12::record(rest),
         x => {
             eprintln!("unknown subcommand {}", x);
             std::process::exit(2);
